@@ -42,3 +42,14 @@ pub unsafe fn no_realloc(_ptr: *mut u8, _layout: core::alloc::Layout, _new_size:
     kani::assume(false);
     core::ptr::null_mut()
 }
+
+/// Experimental (DESIGN 12.10): `serde_json::Deserializer::peek_invalid_type` builds the "invalid
+/// type: found X, expected Y" error by *parsing* the offending value (numbers through the f64
+/// path) - only the error text depends on it. The stub returns a plain JSON error instead.
+#[cfg(kani)]
+pub fn peek_invalid_type<'de, R: serde_json::de::Read<'de>>(
+    _d: &mut serde_json::Deserializer<R>,
+    _exp: &dyn serde::de::Expected,
+) -> serde_json::Error {
+    <serde_json::Error as serde::de::Error>::custom("")
+}
